@@ -193,8 +193,12 @@ class Scheduler:
 
     def __init__(self, choices=None, now=1000.0, max_steps=20000,
                  horizon=None, timer_deviation=True, log=None,
-                 delay_model=False):
+                 delay_model=False, rr=False):
         self.choices = choices or Choices()
+        # default pick after the running vthread blocked: lowest tid (False)
+        # or round robin after the one that blocked (True; a delayed vthread
+        # then waits for the others to run, as in delay-bounded scheduling)
+        self.rr = rr
         self.now = now
         self.t0 = now
         self.max_steps = max_steps
@@ -428,6 +432,9 @@ class Scheduler:
             if running_enabled and en[0] is not last:
                 en.remove(last)
                 en.insert(0, last)
+            elif self.rr and last is not None and not running_enabled:
+                n_ = len(self.threads) + 1
+                en.sort(key=lambda t: (t.tid - last.tid - 1) % n_)
             alts = [(t, None) for t in en]
             costs = [0] + [1 if (running_enabled or self.delay_model)
                            else 0] * (len(en) - 1)
